@@ -53,6 +53,7 @@ pub fn check_1d(ctx: &mut Ctx, n_in: u32, crop: Crop1, n_out: u32, alg: Alg, pts
                     let dst = run_1d(&mut rz, &src, orient, crop, n_out, alg, false);
                     ctx.ops += 1;
                     let mut worst = 0.0f64;
+                    let mut tight = 0u64;
                     let mut first: Option<(usize, usize, usize, f64)> = None;
                     for line in 0..h {
                         for c in 0..nc {
@@ -60,6 +61,14 @@ pub fn check_1d(ctx: &mut Ctx, n_in: u32, crop: Crop1, n_out: u32, alg: Alg, pts
                             for j in 0..n_out as usize {
                                 let got = get_1d(&dst, orient, line, j, c);
                                 let o = outside(e[j], got);
+                                if !amb && e[j].hi > e[j].lo && e[j].hi.is_finite() {
+                                    // tightness of the oracle: distance from the ideal value relative to the bound
+                                    let half = (e[j].hi - e[j].lo) / 2.0;
+                                    let r = ((got - (e[j].hi + e[j].lo) / 2.0).abs() / half * 1000.0) as u64;
+                                    if r > tight && r <= 1000 {
+                                        tight = r;
+                                    }
+                                }
                                 if o > 0.0 {
                                     if first.is_none() {
                                         first = Some((line, j, c, got));
@@ -70,6 +79,7 @@ pub fn check_1d(ctx: &mut Ctx, n_in: u32, crop: Crop1, n_out: u32, alg: Alg, pts
                         }
                     }
                     ctx.traces += (h * nc * n_out as usize) as u64;
+                    ctx.note_max(&format!("max:largest |error|/bound seen, permille ({:?})", ck), tight);
                     if let Some((line, j, c, got)) = first {
                         let row = (line + 7 * c) % h;
                         let e = exp[row][j];
